@@ -114,6 +114,53 @@ def direct_cases():
                      ('repeat', ('all', 'L', ('from', 'h', num(0), v('h'))), [P(v('L')), P(v('h'))])], pop))
         out.append(([('define', 'f', ['n'], [('repeat', ('range', 'n', num(1), v('n')), [P(v('n'))])]),
                      ('call', 'f', [num(4)], False)], pop))
+        # the index variable is an ordinary variable: it is given its first value after the
+        # operands have been evaluated, whatever the count (0, negative: no pass at all), and the
+        # increment is added to it after every pass that runs to its end — READ it after the loop
+        gt = lambda a, b: ('expr', ('bin', '>', a, b))  # noqa
+        plus = lambda a, b: ('expr', ('bin', '+', a, b))  # noqa
+        cnt = lambda n: num(n) if n >= 0 else ('expr', ('un', '-', num(-n)))  # noqa
+        for n in (0, -1, -2.5, 1, 3):
+            for a, b in ((10, 20), (20, 10), (7.5, 7.5)):
+                out.append(([('assign', 'x', num(77)),
+                             ('repeat', ('interp', cnt(n), 'x', num(a), num(b)), [P(v('x'))]),
+                             P(v('x'))], pop))
+            for s in (None, 45):
+                for mode in ('logical', 'raw'):
+                    out.append(([('units', mode), ('assign', 'h', num(77)),
+                                 ('repeat', ('cycle', cnt(n), 'h', None if s is None else num(s)),
+                                  [P(v('h'))]), P(v('h'))], pop))
+            # the count from an expression, the variable new (never assigned before)
+            out.append(([('assign', 'k', cnt(n)),
+                         ('repeat', ('interp', plus(v('k'), num(0)), 'y', num(1), plus(v('k'), num(5))),
+                          [P(v('y'))]), P(v('y'))], pop))
+            out.append(([('assign', 'k', cnt(n)),
+                         ('repeat', ('cycle', plus(v('k'), num(0)), 'z', v('k')), [P(v('z'))]),
+                         P(v('z'))], pop))
+        for a, b in ((1, 3), (3, 1), (2, 2), (-1.5, 1)):
+            out.append(([('repeat', ('range', 'i', num(a), num(b)), [P(v('i'))]), P(v('i'))], pop))
+            # break leaves the variable as it is; a pass that ends normally adds the increment
+            out.append(([('repeat', ('range', 'i', num(a), num(b)),
+                          [('if', gt(v('i'), num(1)), [('break',)], None), P(v('i'))]), P(v('i'))], pop))
+            # the body may assign the index variable: the increment is added to what it then holds,
+            # the number of passes is not affected
+            out.append(([('repeat', ('range', 'i', num(a), num(b)),
+                          [P(v('i')), ('assign', 'i', plus(v('i'), num(10)))]), P(v('i'))], pop))
+        out.append(([('repeat', ('interp', num(3), 'x', num(0), num(10)),
+                      [P(v('x')), ('assign', 'x', num(100))]), P(v('x'))], pop))
+        # the `with` clause of a loop over names (zero names in the empty population / an unknown
+        # group): operands evaluated, variable assigned, nothing else
+        for w in (('from', 'x', num(10), num(30)), ('from', 'x', plus(num(1), num(2)), num(-3)),
+                  ('cycle', 'x', None), ('cycle', 'x', num(90))):
+            groups = sorted({s['group'] for s in pop}) or ['nogroup']
+            for hdr in (('all', 'L', w), ('groups', 'L', w), ('locations', 'L', w),
+                        ('in', [('group', ('str', 'no such group'))], 'L', w),
+                        ('in', [('location', ('str', 'no such place'))], 'L', w),
+                        ('in', [('group', ('str', groups[0]))], 'L', w)):
+                out.append(([('assign', 'x', num(77)),
+                             ('repeat', hdr, [P(v('L')), P(v('x'))]), P(v('x'))], pop))
+                out.append(([('repeat', hdr, [P(v('x')), ('assign', 'x', plus(v('x'), num(1)))]),
+                             P(v('x'))], pop))
         # while re-tests before every pass; break ends only the innermost loop
         out.append(([('assign', 'y', num(0)),
                      ('repeat', ('while', ('expr', ('bin', '<', v('y'), num(4))), 'y'),
